@@ -37,9 +37,24 @@ type Failure struct {
 	Msg     string
 }
 
+// item is a pending branch: the choices base[:i] of the execution it was found in, then alt. The prefix is
+// materialised only when the branch is run: an execution with n choice points would otherwise pin O(n^2)
+// integers (gigabytes for executions that spin up to the step horizon).
 type item struct {
-	prefix []int
-	cost   int
+	base []int
+	i    int // -1: the empty prefix
+	alt  int
+	cost int
+}
+
+func (it item) prefix() []int {
+	if it.i < 0 {
+		return nil
+	}
+	np := make([]int, it.i+1)
+	copy(np, it.base[:it.i])
+	np[it.i] = it.alt
+	return np
 }
 
 // Explorer enumerates all executions of Body within Bound deviations.
@@ -60,7 +75,7 @@ type Explorer struct {
 // Explore runs the DFS. It stops at the first violation (the one with the
 // fewest deviations among those reachable by iterating the bound).
 func (e *Explorer) Explore(body func()) *Failure {
-	stack := []item{{nil, 0}}
+	stack := []item{{nil, -1, 0, 0}}
 	for len(stack) > 0 {
 		it := stack[len(stack)-1]
 		stack = stack[:len(stack)-1]
@@ -72,7 +87,8 @@ func (e *Explorer) Explore(body func()) *Failure {
 			e.Stats.Capped = true
 			return nil
 		}
-		x := Run(it.prefix, e.Cfg, body)
+		pre := it.prefix()
+		x := Run(pre, e.Cfg, body)
 		e.Stats.Executions++
 		e.Stats.Steps += x.Steps
 		e.Stats.ChoicePts += len(x.points)
@@ -81,7 +97,7 @@ func (e *Explorer) Explore(body func()) *Failure {
 			e.Stats.MaxDepth = len(x.points)
 		}
 		if x.divergence != "" {
-			panic("vsched: " + x.divergence + fmt.Sprintf(" prefix=%v", it.prefix))
+			panic("vsched: " + x.divergence + fmt.Sprintf(" prefix=%v", pre))
 		}
 		if x.HitHorizon {
 			e.Stats.HorizonHits++
@@ -92,7 +108,8 @@ func (e *Explorer) Explore(body func()) *Failure {
 		if msg := e.Check(x); msg != "" {
 			return &Failure{Choices: append([]int(nil), x.Choices...), Msg: msg}
 		}
-		for i := len(x.points) - 1; i >= len(it.prefix); i-- {
+		shared := append([]int(nil), x.Choices...)
+		for i := len(x.points) - 1; i >= len(pre); i-- {
 			p := x.points[i]
 			for alt := p.nalt - 1; alt >= 1; alt-- {
 				c := 0
@@ -110,10 +127,7 @@ func (e *Explorer) Explore(body func()) *Failure {
 				if it.cost+c > e.Bound {
 					continue
 				}
-				np := make([]int, i+1)
-				copy(np, x.Choices[:i])
-				np[i] = alt
-				stack = append(stack, item{np, it.cost + c})
+				stack = append(stack, item{shared, i, alt, it.cost + c})
 			}
 		}
 	}
